@@ -28,7 +28,7 @@ ASSUMPTIONS = [
 SHARDS = {"quick": 4, "thorough": 16}
 MIN_REACH = {
     "calls_logged": {"quick": 2000, "thorough": 60000},
-    "missing_slots_checked": {"quick": 2000, "thorough": 60000},
+    "missing_slots_checked": {"quick": 1500, "thorough": 50000},
     "rejections_checked": {"quick": 10, "thorough": 100},
 }
 TIME_BUDGET = {"quick": 300, "thorough": 3000}
@@ -40,7 +40,7 @@ SPLIT_KINDS = ["tuple:2", "tuple:3", "multi:s,b,t", "multi:s,a2,l2x2", "mixed"]
 
 def cases(ctx):
     rng = ctx.rng("cases")
-    for i in range(ctx.pick(320, 12000)):
+    for i in range(ctx.pick(640, 12000)):
         names, cs = gens.gen_cases(rng)
         sub = []
         if rng.random() < 0.45:
